@@ -4,6 +4,7 @@ import (
 	"encoding/json"
 	"fmt"
 	"path/filepath"
+	"sync"
 	"time"
 
 	"verif/internal/core"
@@ -28,11 +29,16 @@ type c11Case struct {
 	Reopen    string `json:"reopen,omitempty"`
 	Quiet     int    `json:"quiet,omitempty"`
 	PauseMs   int    `json:"pause_ms,omitempty"`
+	PingUs    int    `json:"ping_us,omitempty"`
+	Rewrite   bool   `json:"rewrite,omitempty"`
 }
 
 func (c c11Case) class() string {
 	if c.CloseRace {
 		return fmt.Sprintf("close-behind-data|sizes=%s|kinds=%s|batch=%s|n=%s|backend reads 1 msg per %dms", c.Sizes, c.Kinds, c.Batch, c11Bucket(c.C2S), c.SlowMs)
+	}
+	if c.PingUs > 0 {
+		return fmt.Sprintf("%d messages of 0.5-1 MiB uploaded while the backend pings every %d us", c.C2S, c.PingUs)
 	}
 	if c.PauseMs > 0 {
 		return fmt.Sprintf("backend busy (not reading) for %d ms then resumes, client keeps posting", c.PauseMs)
@@ -46,7 +52,7 @@ func (c c11Case) class() string {
 	if c.Tail > 0 {
 		return fmt.Sprintf("inject=%v|v%d|sessions=%d|sizes=%s|kinds=%s|batch=%s|poll=%s|final-burst=%s+backend-close%s", c.Inject, c.Version, c.Sessions, c.Sizes, c.Kinds, c.Batch, c.Poll, c11Bucket(c.Tail), map[bool]string{true: "+data-post-before-first-poll", false: ""}[c.TailData])
 	}
-	return fmt.Sprintf("inject=%v|v%d|sessions=%d|sizes=%s|kinds=%s|batch=%s|poll=%s", c.Inject, c.Version, c.Sessions, c.Sizes, c.Kinds, c.Batch, c.Poll)
+	return fmt.Sprintf("inject=%v|rewriteHost=%v|v%d|sessions=%d|sizes=%s|kinds=%s|batch=%s|poll=%s", c.Inject, c.Rewrite, c.Version, c.Sessions, c.Sizes, c.Kinds, c.Batch, c.Poll)
 }
 
 type c11Result struct {
@@ -118,6 +124,10 @@ func c11Cases(r *core.Run) []c11Case {
 	var out []c11Case
 	// first, so that its 21 s of mostly waiting overlap everything else
 	out = append(out, c11Case{ID: fmt.Sprintf("c11-s%d-quiet", r.Seed), Seed: r.Seed, Quiet: 6, Version: 1, Sessions: 6})
+	// uploads of large multi-frame messages to a backend that keeps pinging (own worker process: see C11)
+	for i := 0; i < r.Pick(2, 8); i++ {
+		out = append(out, c11Case{ID: fmt.Sprintf("c11-s%d-ping%d", r.Seed, i), Seed: r.Seed*100 + int64(i), PingUs: []int{1500, 1000, 2000, 500}[i%4], C2S: 40, Version: 1, Sessions: 1, Rewrite: i%2 == 1})
+	}
 	// also mostly waiting, overlapping the quiet history: a backend that is busy for several seconds
 	for i, ms := range []int{7000, 6000, 9000, 12000}[:r.Pick(1, 4)] {
 		out = append(out, c11Case{ID: fmt.Sprintf("c11-s%d-pause%d", r.Seed, i), Seed: r.Seed + int64(i), PauseMs: ms, Version: 1, Sessions: 1})
@@ -141,6 +151,12 @@ func c11Cases(r *core.Run) []c11Case {
 			c.Kinds = "json"
 		} else if rng.Intn(12) == 0 {
 			c.Kinds = "json" // JSON traffic with injection disabled must pass untouched
+		}
+		// rewriteWebsocketHost is an independent setting: all four combinations with injection occur;
+		// with injection off and rewriting on, a third of the histories carry resource.headers traffic
+		c.Rewrite = i%2 == 1
+		if c.Rewrite && !c.Inject && i%3 == 0 {
+			c.Kinds = "json"
 		}
 		maxC, maxS := 150, 250
 		switch c.Sizes {
@@ -195,7 +211,7 @@ func c11Cases(r *core.Run) []c11Case {
 // C11 — shimmed websockets deliver every message once, in order, unchanged.
 func C11(r *core.Run) {
 	r.Level = "exploration"
-	r.SetRule("websockets.Proxy driven in-process (race-built worker, agent's GODEBUG defaults) against a real gorilla websocket backend; one case = one seeded message history over 1-2 shim sessions: text (valid UTF-8 incl. NUL, quotes, <>&, U+2028, 4-byte runes) and binary (all byte values, protocol v1) messages of sizes {0,1,125,126,127,65535,65536,65537,1 MiB,random}, client messages partitioned into data posts of 1-40 (some >10 = queue capacity, some spanning two sessions), backend bursts of 1-100 sent before / while / trickling during polls, one data post and one poll outstanding per session; every third history ends with a final backend burst of 1-30 messages (incl. 10, 11, 12, 30) sent while no poll is outstanding followed by a graceful backend close (in half of them a client data post arrives before the first poll), after which polls must deliver the burst and then report the session closed; plus one quiet history: 6 idle sessions polled the way the browser shim polls (one poll outstanding, re-poll on every answer) while the backend is silent for 16 s, speaks, and speaks again at 20.6 s (around the 20 s poll time-out), every message to be delivered exactly once; plus a busy-backend history: the backend does not read for 7 s (thorough also 6, 9, 12 s) and then resumes, while the client posts a 12 MiB message, ten small ones and further posts that have to wait for room, and goes on posting whatever the answers are; what the backend receives must be a gap-free prefix of what was posted and contain every post answered 200; plus reopen histories: open A, open B, traffic on A, A ends (client close | backend close reported by a poll), open C, then interleaved two-session traffic (posts spanning B and C) with every backend connection and every session's polls checked for exactly their own messages; plus close-behind-data histories: 1-35 messages (more than the queue, or 1 MiB each) posted to a backend that reads one message per 5-20 ms, close posted right behind the last data post, all messages must arrive in order followed by a normal closure; with injection enabled JSON messages of 13 shapes around resource.headers; class = (injection, protocol version, sessions, size profile, kinds, post batching, poll timing)")
+	r.SetRule("websockets.Proxy driven in-process (race-built worker, agent's GODEBUG defaults) against a real gorilla websocket backend; one case = one seeded message history over 1-2 shim sessions: text (valid UTF-8 incl. NUL, quotes, <>&, U+2028, 4-byte runes) and binary (all byte values, protocol v1) messages of sizes {0,1,125,126,127,65535,65536,65537,1 MiB,random}, client messages partitioned into data posts of 1-40 (some >10 = queue capacity, some spanning two sessions), backend bursts of 1-100 sent before / while / trickling during polls, one data post and one poll outstanding per session; every third history ends with a final backend burst of 1-30 messages (incl. 10, 11, 12, 30) sent while no poll is outstanding followed by a graceful backend close (in half of them a client data post arrives before the first poll), after which polls must deliver the burst and then report the session closed; plus one quiet history: 6 idle sessions polled the way the browser shim polls (one poll outstanding, re-poll on every answer) while the backend is silent for 16 s, speaks, and speaks again at 20.6 s (around the 20 s poll time-out), every message to be delivered exactly once; plus uploads of 40 messages of 0.5-1 MiB (hundreds of frames each) to a backend that sends a keep-alive ping every 0.5-2 ms, run in a worker process of their own so that a panic on a connection goroutine is attributed; rewriteWebsocketHost varied independently of injection (all four combinations, resource.headers traffic in each); plus a busy-backend history: the backend does not read for 7 s (thorough also 6, 9, 12 s) and then resumes, while the client posts a 12 MiB message, ten small ones and further posts that have to wait for room, and goes on posting whatever the answers are; what the backend receives must be a gap-free prefix of what was posted and contain every post answered 200; plus reopen histories: open A, open B, traffic on A, A ends (client close | backend close reported by a poll), open C, then interleaved two-session traffic (posts spanning B and C) with every backend connection and every session's polls checked for exactly their own messages; plus close-behind-data histories: 1-35 messages (more than the queue, or 1 MiB each) posted to a backend that reads one message per 5-20 ms, close posted right behind the last data post, all messages must arrive in order followed by a normal closure; with injection enabled JSON messages of 13 shapes around resource.headers; class = (injection, protocol version, sessions, size profile, kinds, post batching, poll timing)")
 	r.Assume("binary messages are only generated under shim protocol version 1 (version 0 carries text only); JSON numbers in injected messages are float64-exact; injection is judged as safety only (an unchanged message is always acceptable)")
 	bin := r.MustBuild(r.BuildWorker())
 	godebug := shimGodebug(r)
@@ -210,11 +226,15 @@ func C11(r *core.Run) {
 		generic = append(generic, c)
 	}
 	hits := map[string]int64{}
+	var hmu sync.Mutex
 	run := func(cs []interface{}, shards, parallel int) ([]c11Result, []shimCrash) {
 		lines, crashes := shimRun(r, bin, "c11", cs, shards, map[string]interface{}{"parallel": parallel}, 12*time.Minute, "GODEBUG="+godebug)
 		var out []c11Result
 		for _, ln := range lines {
-			if shimAddHits(hits, ln) {
+			hmu.Lock()
+			isHits := shimAddHits(hits, ln)
+			hmu.Unlock()
+			if isHits {
 				continue
 			}
 			var res c11Result
@@ -224,7 +244,38 @@ func C11(r *core.Run) {
 		}
 		return out, crashes
 	}
-	results, crashes := run(generic, 8, 4)
+	// the ping uploads get a worker process of their own: what they may provoke is a panic on one of
+	// the connection's goroutines, which takes the process (in the agent: the agent) down
+	var pingCases, otherCases []interface{}
+	for _, c := range cases {
+		if c.PingUs > 0 {
+			pingCases = append(pingCases, c)
+		} else {
+			otherCases = append(otherCases, c)
+		}
+	}
+	var results []c11Result
+	var crashes []shimCrash
+	var pwg sync.WaitGroup
+	if len(pingCases) > 0 {
+		pwg.Add(1)
+		go func() {
+			defer pwg.Done()
+			rs, cr := run(pingCases, 1, 2)
+			hmu.Lock()
+			results = append(results, rs...)
+			crashes = append(crashes, cr...)
+			hmu.Unlock()
+		}()
+	}
+	if len(otherCases) > 0 {
+		rs, cr := run(otherCases, 8, 4)
+		hmu.Lock()
+		results = append(results, rs...)
+		crashes = append(crashes, cr...)
+		hmu.Unlock()
+	}
+	pwg.Wait()
 	shimJudgeCrashes(r, crashes)
 
 	seen := map[string]bool{}
@@ -251,6 +302,9 @@ func C11(r *core.Run) {
 		r.Add("polls_after_backend_close", res.TailPolls)
 		r.Add("data_posts_between_backend_close_and_first_poll", res.TailDataPosts)
 		r.Add("messages_delivered_ahead_of_close_to_slow_backend", res.CloseRaceMsgs)
+		if c.PingUs > 0 {
+			r.Add("large_message_uploads_under_backend_pings", 1)
+		}
 		if c.Reopen != "" {
 			r.Add("histories_opening_a_session_after_another_ended_while_a_third_is_live", 1)
 		}
@@ -308,5 +362,5 @@ func C11(r *core.Run) {
 	r.Set("max_case_duration_ms", maxMs)
 	r.Set("worker_godebug", godebug)
 	r.JudgeRaces(core.ParseRaceLogs(filepath.Join(r.WorkDir, "race-")))
-	r.Finish(r.Pick(187, 4800))
+	r.Finish(r.Pick(185, 4800))
 }
